@@ -11,10 +11,11 @@ Section Graph.
      succeed (e.g. mutual straddling depth below the re-trim limit, DESIGN section 7 T4) *)
   Variable align : list Z -> stream -> stream -> res calls2.
   Variable align_pre : list row -> list row -> Prop.
-  Hypothesis align_ok : forall bs dt1 run1 dt2 run2 R1 R2 T s1 s2,
-    chunking_of dt1 run1 R1 0 T s1 -> chunking_of dt2 run2 R2 0 T s2 -> align_pre R1 R2 ->
+  Variable rn : option Z.        (* the run id every chunk of the run carries *)
+  Hypothesis align_ok : forall bs dt1 dt2 R1 R2 T s1 s2,
+    chunking_of dt1 rn R1 0 T s1 -> chunking_of dt2 rn R2 0 T s2 -> align_pre R1 R2 ->
     exists calls, align bs s1 s2 = Ok calls /\ aligned R1 R2 0 T calls /\
-                  (map rt R1 = map rt R2 -> map re R1 = map re R2 -> equal_len calls).
+                  ends_nt T (map (fun p => cend (fst p)) calls).
 
   Variable T : Z.
   Variable src : Z -> list row.
@@ -51,50 +52,51 @@ Section Graph.
   (* the invariant: every data type evaluated so far carries a tight well-formed chunking of its whole-run rows *)
   Definition env_ok (whole : list (Z * list row)) (env : list (Z * stream)) : Prop :=
     forall d, match lookup d env with
-              | Some cs => exists dt run R, lookup d whole = Some R /\ chunking_of dt run R 0 T cs
+              | Some cs => exists dt R, lookup d whole = Some R /\ chunking_of dt rn R 0 T cs
               | None => lookup d whole = None
               end.
 
   (* sources and stored data types: ANY tight well-formed contiguous chunking of the whole-run rows *)
   Definition given_ok (given : Z -> option stream) (whole : list (Z * list row)) (n : node) : Prop :=
     match given (n_id n) with
-    | Some cs => exists dt run, chunking_of dt run (whole_node src whole n) 0 T cs
+    | Some cs => exists dt, chunking_of dt rn (whole_node src whole n) 0 T cs
     | None => n_comp n <> CSrc
     end.
 
   Lemma run_node_correct whole env n :
     env_ok whole env -> comp_ok (n_comp n) -> arity_ok n -> data_ok whole n ->
-    Forall (fun d => lookup d env <> None) (n_deps n) -> n_comp n <> CSrc ->
+    Forall (fun d => lookup d env <> None) (n_deps n) -> n_comp n <> CSrc -> o_run (n_meta n) = rn ->
     exists out, run_node align env n = Ok out /\
-                chunking_of (o_dtype (n_meta n)) (o_run (n_meta n)) (whole_node src whole n) 0 T out.
+                chunking_of (o_dtype (n_meta n)) rn (whole_node src whole n) 0 T out.
   Proof.
-    intros HE HC HA HD HL HS. unfold run_node, whole_node, data_ok, arity_ok in *.
+    intros HE HC HA HD HL HS HRN. rewrite <- HRN. unfold run_node, whole_node, data_ok, arity_ok in *.
     destruct (n_comp n) as [|h|f|h cut|sk h bs] eqn:EC; [first [elim HS; reflexivity | elim HS; exact EC]| | | |].
     - destruct HA as (d & HA). rewrite HA in *. inversion HL as [|? ? Hd _]; subst.
       specialize (HE d). destruct (lookup d env) as [cs|]; [|congruence].
-      destruct HE as (dt & run & R & -> & Hc). apply (run_local_correct _ h dt run R 0 T cs HC Hc).
+      destruct HE as (dt & R & -> & Hc). apply (run_local_correct _ h dt rn R 0 T cs HC Hc).
     - destruct HA as (d & HA). rewrite HA in *. inversion HL as [|? ? Hd _]; subst.
       specialize (HE d). destruct (lookup d env) as [cs|]; [|congruence].
-      destruct HE as (dt & run & R & -> & Hc). apply (run_exhaust_correct _ f dt run R 0 T cs HC Hc).
+      destruct HE as (dt & R & -> & Hc). apply (run_exhaust_correct _ f dt rn R 0 T cs HC Hc).
     - destruct HA as (d & HA). rewrite HA in *. inversion HL as [|? ? Hd _]; subst.
       specialize (HE d). destruct (lookup d env) as [cs|]; [|congruence].
-      destruct HE as (dt & run & R & -> & Hc). destruct HC as [HC1 HC2].
-      apply (run_down_correct _ h cut dt run R 0 T cs HC1 HC2 Hc).
+      destruct HE as (dt & R & -> & Hc). destruct HC as [HC1 HC2].
+      apply (run_down_correct _ h cut dt rn R 0 T cs HC1 HC2 Hc).
     - destruct HA as (d1 & d2 & HA). rewrite HA in *. inversion HL as [|? ? Hd1 HL2]; subst. inversion HL2 as [|? ? Hd2 _]; subst.
       pose proof (HE d1) as H1. pose proof (HE d2) as H2.
       destruct (lookup d1 env) as [s1|]; [|congruence]. destruct (lookup d2 env) as [s2|]; [|congruence].
-      destruct H1 as (dt1 & run1 & R1 & L1 & C1). destruct H2 as (dt2 & run2 & R2 & L2 & C2).
+      destruct H1 as (dt1 & R1 & L1 & C1). destruct H2 as (dt2 & R2 & L2 & C2).
       rewrite L1, L2 in *. destruct HD as [HP HK].
-      destruct (align_ok bs dt1 run1 dt2 run2 R1 R2 T s1 s2 C1 C2 HP) as (calls & EA & AL & HEq).
+      destruct (align_ok bs dt1 dt2 R1 R2 T s1 s2 C1 C2 HP) as (calls & EA & AL & HNT).
       pose proof AL as (Hne & HF & Ch & HR1 & HR2).
       rewrite run_pair_unfold, EA. cbn [res_bind].
       assert (HPC : exists P : calls2 -> Prop, pair_comp P h /\ P calls /\ (sk = true -> equal_len calls)).
       { destruct sk.
-        - exists equal_len. destruct (HK eq_refl) as [K1 K2]. split; [exact HC|]. split; auto.
+        - exists equal_len. destruct (HK eq_refl) as [K1 K2]. pose proof (aligned_equal_len R1 R2 0 T calls AL K1).
+          split; [exact HC|]. split; auto.
         - exists (fun _ => True). split; [exact HC|]. split; [exact I|discriminate]. }
       destruct HPC as (P & PC & HPc & HLen).
-      destruct (map_pair_tiles (n_meta n) sk P h PC calls 0 T HF HLen Ch) as (out & Em & Wo & To & Cho & Ro & Uo & Lo).
-      exists out. split; [exact Em|]. split; [|exact Uo].
+      destruct (map_pair_tiles (n_meta n) sk P h PC calls 0 T HF HLen Ch) as (out & Em & Wo & To & Cho & Ro & Uo & Lo & Mo).
+      exists out. split; [exact Em|]. split; [|split; [exact Uo|unfold no_trailing; rewrite Mo; exact HNT]].
       split; [|split; [|split; [|split]]]; auto.
       + intros ->. destruct calls; [congruence|discriminate].
       + rewrite Ro. symmetry. apply (pc_split P h PC R1 R2 0 T calls AL HPc).
@@ -107,13 +109,14 @@ Section Graph.
     | [] => True
     | n :: rest =>
         comp_ok (n_comp n) /\ arity_ok n /\ data_ok whole n /\ Forall (fun d => lookup d whole <> None) (n_deps n) /\
+        o_run (n_meta n) = rn /\
         given_ok given whole n /\ graph_ok given ((n_id n, whole_node src whole n) :: whole) rest
     end.
 
-  Lemma env_ok_cons whole env d dt run R cs :
-    env_ok whole env -> chunking_of dt run R 0 T cs -> env_ok ((d, R) :: whole) ((d, cs) :: env).
+  Lemma env_ok_cons whole env d dt R cs :
+    env_ok whole env -> chunking_of dt rn R 0 T cs -> env_ok ((d, R) :: whole) ((d, cs) :: env).
   Proof.
-    intros HE HC k. rewrite !lookup_cons. destruct (d =? k); [exists dt, run, R; auto|apply HE].
+    intros HE HC k. rewrite !lookup_cons. destruct (d =? k); [exists dt, R; auto|apply HE].
   Qed.
 
   Theorem eval_graph_correct given : forall g whole env,
@@ -122,17 +125,17 @@ Section Graph.
   Proof.
     induction g as [|n g IH]; intros whole env HE HG.
     - exists env. split; [reflexivity|exact HE].
-    - destruct HG as (HC & HA & HD & HL & HGiv & HG). cbn [eval_graph eval_whole].
-      assert (HS : exists s dt run, match given (n_id n) with Some cs => Ok cs | None => run_node align env n end = Ok s /\
-                                    chunking_of dt run (whole_node src whole n) 0 T s).
+    - destruct HG as (HC & HA & HD & HL & HRN & HGiv & HG). cbn [eval_graph eval_whole].
+      assert (HS : exists s dt, match given (n_id n) with Some cs => Ok cs | None => run_node align env n end = Ok s /\
+                                chunking_of dt rn (whole_node src whole n) 0 T s).
       { unfold given_ok in HGiv. destruct (given (n_id n)) as [cs|].
-        - destruct HGiv as (dt & run & Hc). exists cs, dt, run. auto.
+        - destruct HGiv as (dt & Hc). exists cs, dt. auto.
         - destruct (run_node_correct whole env n HE HC HA HD) as (out & Eo & Ho); auto.
           + eapply Forall_impl; [|exact HL]. cbn. intros d Hd. specialize (HE d).
             destruct (lookup d env); [discriminate|congruence].
           + eauto. }
-      destruct HS as (s & dt & run & Es & Hs). rewrite Es. cbn [res_bind].
-      apply IH; [|exact HG]. apply (env_ok_cons whole env (n_id n) dt run _ s HE Hs).
+      destruct HS as (s & dt & Es & Hs). rewrite Es. cbn [res_bind].
+      apply IH; [|exact HG]. apply (env_ok_cons whole env (n_id n) dt _ s HE Hs).
   Qed.
 
   (* the statement of the property on the model: for every graph, every chunking of every source, every stored
@@ -148,7 +151,7 @@ Section Graph.
   Proof.
     intros HG. destruct (eval_graph_correct given g [] []) as (env & E & HE); [intros d; reflexivity|exact HG|].
     exists env. split; [exact E|]. specialize (HE target). destruct (lookup target env) as [cs|]; [|exact HE].
-    destruct HE as (dt & run & R & HL & HT & _). exists R. auto.
+    destruct HE as (dt & R & HL & HT & _). exists R. auto.
   Qed.
 
 End Graph.
@@ -197,7 +200,7 @@ Theorem saved_stream_correct dt run R a b cs rechunk :
   chunking_of dt run R a b cs -> Forall (fun c => 0 < ctarget c) cs ->
   exists out, saved_stream rechunk cs = Ok out /\ out <> [] /\ Forall wf out /\ chain a out b /\ flat_map crows out = R.
 Proof.
-  intros ((Hne & W & TT & Ch & HR) & U) Tg. destruct rechunk; cbn [saved_stream].
+  intros ((Hne & W & TT & Ch & HR) & U & _) Tg. destruct rechunk; cbn [saved_stream].
   - destruct cs as [|c0 rest]; [congruence|].
     inversion U as [|? ? [U1 U2] Ur]; subst. pose proof Ch as Ch0. cbn in Ch. destruct Ch as [Cs Ch].
     pose proof (chain_last_end rest (cend c0) b Ch) as HL.
@@ -223,7 +226,7 @@ Lemma concat_all_tiles dt run R a b cs :
   chunking_of dt run R a b cs ->
   exists c, concat_all None cs = Ok (Some c) /\ wf c /\ tight c /\ cstart c = a /\ cend c = b /\ crows c = R.
 Proof.
-  intros ((Hne & W & TT & Ch & HR) & U). destruct cs as [|c0 cs]; [congruence|].
+  intros ((Hne & W & TT & Ch & HR) & U & _). destruct cs as [|c0 cs]; [congruence|].
   inversion W as [|? ? Wc Wcs]; subst. inversion U as [|? ? [U1 U2] Ucs]; subst.
   pose proof Ch as Ch0. cbn in Ch. destruct Ch as [Cs Ch].
   destruct (concat_all_spec cs c0 b Wc Wcs Ucs Ch) as (bb & E & Wb & B1 & B2 & B3 & B4 & B5).
@@ -232,12 +235,12 @@ Proof.
   unfold tight. rewrite B2, B3. apply (tight_all_lt (c0 :: cs) a b W TT Ch0).
 Qed.
 
-Lemma align_one_ok : forall bs dt1 run1 dt2 run2 R1 R2 T s1 s2,
-  chunking_of dt1 run1 R1 0 T s1 -> chunking_of dt2 run2 R2 0 T s2 -> True ->
+Lemma align_one_ok rn : forall bs dt1 dt2 R1 R2 T s1 s2,
+  chunking_of dt1 rn R1 0 T s1 -> chunking_of dt2 rn R2 0 T s2 -> True ->
   exists calls, align_one bs s1 s2 = Ok calls /\ aligned R1 R2 0 T calls /\
-                (map rt R1 = map rt R2 -> map re R1 = map re R2 -> equal_len calls).
+                ends_nt T (map (fun p => cend (fst p)) calls).
 Proof.
-  intros bs dt1 run1 dt2 run2 R1 R2 T s1 s2 C1 C2 _.
+  intros bs dt1 dt2 R1 R2 T s1 s2 C1 C2 _.
   destruct (concat_all_tiles _ _ _ _ _ _ C1) as (c1 & E1 & W1 & T1 & A1 & B1 & Rw1).
   destruct (concat_all_tiles _ _ _ _ _ _ C2) as (c2 & E2 & W2 & T2 & A2 & B2 & Rw2).
   exists [(c1, c2)]. unfold align_one. rewrite E1, E2. cbn [res_bind]. split; [reflexivity|]. split.
@@ -245,8 +248,7 @@ Proof.
     + apply Forall_cons; [|apply Forall_nil]. unfold call_ok. cbn [fst snd].
       split; [exact W1|]. split; [exact W2|]. split; [exact T1|]. split; [exact T2|]. split; congruence.
     + unfold rows1, rows2. cbn. rewrite !app_nil_r. repeat split; auto.
-  - intros H _. constructor; [|constructor]. cbn. rewrite Rw1, Rw2.
-    rewrite <- (map_length rt R1), <- (map_length rt R2), H. reflexivity.
+  - unfold ends_nt. cbn. constructor.
 Qed.
 
 (* a small graph: source 1, a row-wise node 2, a filter 3 on the same source, a same-kind merge 4 of (2, 1) (a
@@ -297,10 +299,10 @@ Proof.
     + repeat constructor; cbn; lia.
     + cbn. repeat split; reflexivity.
     + reflexivity.
-  - repeat constructor.
+  - split; [repeat constructor|]. unfold no_trailing, ends_nt. cbn. repeat constructor; lia.
 Qed.
 
-Example ex_graph_ok : graph_ok (fun _ _ => True) 20 ex_src ex_given [] ex_graph.
+Example ex_graph_ok : graph_ok (fun _ _ => True) (Some 0) 20 ex_src ex_given [] ex_graph.
 Proof.
   pose proof ex_stream_chunking as HS.
   unfold ex_graph. cbn [graph_ok n_comp n_deps n_id n_meta comp_ok].
@@ -311,7 +313,7 @@ Proof.
     try apply pair_h_loop; try apply down_cut_ok;
     try (eexists; reflexivity); try (eexists; eexists; reflexivity);
     try (repeat constructor; discriminate).
-  cbn. exists 1, (Some 0). exact HS.
+  cbn. exists 1. exact HS.
 Qed.
 
 (* the partial theorem instantiated: alignment hypothesis discharged by align_one_ok, graph hypotheses by ex_graph_ok *)
@@ -321,4 +323,4 @@ Example ex_theorem_instance :
     | Some cs => exists R, lookup 7 (eval_whole ex_src [] ex_graph) = Some R /\ tiles R 0 20 cs
     | None => lookup 7 (eval_whole ex_src [] ex_graph) = None
     end.
-Proof. exact (results_chunking_independent align_one (fun _ _ => True) align_one_ok 20 ex_src ex_given ex_graph 7 ex_graph_ok). Qed.
+Proof. exact (results_chunking_independent align_one (fun _ _ => True) (Some 0) (align_one_ok (Some 0)) 20 ex_src ex_given ex_graph 7 ex_graph_ok). Qed.
